@@ -67,6 +67,8 @@ VARIABLES
   Cfg       \* the static configuration (a variable that never changes, so that one TLC run can validate traces of many configurations)
 vars == <<nev, ev, q, unf, shut, hist, running, idle, semv, depth, lockq, task, nact, nx, xh, cur, o, hlog, Cfg>>
 
+\* re-dispatching existing events is opt-in per configuration (field `redispatch` of Cfg; trace validation turns it on)
+WithRedispatch == "redispatch" \in DOMAIN Cfg /\ Cfg.redispatch
 NoTask == <<"none", "">>
 RL(b) == <<"rl", b>>
 HT(a) == <<"h", a>>
@@ -717,6 +719,17 @@ HDispatch(a, b, ty) ==
      /\ o' = Obs(DispLine(b, e, ty, d.out, a, 0, FALSE), d.E, e, d.H, d.Q)
   /\ UNCHANGED <<shut, idle, semv, depth, lockq, nact, nx, xh, cur>>
 
+\* the handler dispatches its *own* event again (same object), to its own bus or to another one: no new event, no parent / child link
+\* (the dispatcher is the event itself); the event is queued again and every bus it reaches only runs the handlers it has no result for
+HRedispatch(a, b) ==
+  /\ InOps(a) /\ task[HT(a)].bud > 0
+  /\ LET x == task[HT(a)]  e == x.e
+         d == DispatchFx(b, e, x.e, x.h, x.b, TRUE, ev, FALSE, ev[e].ty, ev[e].lvl) IN
+     /\ ev' = d.E /\ q' = d.Q /\ unf' = d.U /\ hist' = d.H /\ running' = d.R
+     /\ task' = [d.T EXCEPT ![HT(a)].bud = @ - 1]
+     /\ o' = Obs(DispLine(b, e, ev[e].ty, d.out, a, 0, FALSE), d.E, nev, d.H, d.Q)
+  /\ UNCHANGED <<nev, shut, idle, semv, depth, lockq, nact, nx, xh, cur>>
+
 HSuspend(a, how) ==   \* sleep(0) ("yield") or a timed sleep
   /\ InOps(a) /\ task[HT(a)].bud > 0
   /\ how = "sleep" => WithSleep
@@ -838,6 +851,14 @@ DDispatchN(i, b, ty, n) ==
      /\ o' = Obs([DispLine(b, e, ty, d.out, 0, i, FALSE) EXCEPT !.n = n], d.E, e, d.H, d.Q)
   /\ UNCHANGED <<shut, idle, semv, depth, lockq, nact, nx, xh, cur>>
 DDispatch(i, b, ty) == DDispatchN(i, b, ty, -1)
+
+DRedispatch(i, e, b) ==   \* ordinary code dispatches an existing root event (same object) again
+  /\ DRun(i) /\ e \in 1..nev /\ ev[e].lvl = 0 /\ ev[e].par = 0
+  /\ LET d == DispatchFx(b, e, 0, "", "", FALSE, ev, FALSE, ev[e].ty, 0) IN
+     /\ ev' = d.E /\ q' = d.Q /\ unf' = d.U /\ hist' = d.H /\ running' = d.R
+     /\ task' = [d.T EXCEPT ![DT(i)].bud = @ - 1]
+     /\ o' = Obs([DispLine(b, e, ev[e].ty, d.out, 0, i, FALSE) EXCEPT !.n = ev[e].n], d.E, nev, d.H, d.Q)
+  /\ UNCHANGED <<nev, shut, idle, semv, depth, lockq, nact, nx, xh, cur>>
 
 DAwaitBegin(i, k) ==   \* await event from ordinary code: waits on the completion signal
   /\ DRun(i) /\ k \in DOMAIN task[DT(i)].kids /\ task[DT(i)].kids[k] # 0
@@ -980,7 +1001,7 @@ NextCore ==
   \/ \E a \in 1..MaxAct :
         \/ HStart(a) \/ HWake(a) \/ HAwaitDone(a) \/ InlineSpin(a) \/ SpinWake(a) \/ InlineGiveUp(a)
         \/ HSuspend(a, "yield") \/ HSuspend(a, "sleep") \/ HFinish(a, "ret") \/ HFinish(a, "raise")
-        \/ \E b \in B : InlineTake(a, b) \/ \E ty \in Range(Types) : HDispatch(a, b, ty)
+        \/ \E b \in B : InlineTake(a, b) \/ (WithRedispatch /\ HRedispatch(a, b)) \/ \E ty \in Range(Types) : HDispatch(a, b, ty)
         \/ \E k \in 1..MaxEv : HAwaitBegin(a, k)
         \/ HStopGo(a) \/ HStopWaitEnd(a) \/ \E b \in B : HStopBegin(a, b)
   \/ \E i \in 1..NDrv :
@@ -989,7 +1010,7 @@ NextCore ==
         \/ \E b \in B : \E ty \in Range(Types) : \E f \in ExpFilters : DExpectBegin(i, b, ty, f, "none", FALSE) \/ \E n \in 0..2 : (WithExpect /\ DDispatchN(i, b, ty, n))
         \/ \E b \in B : DStopBegin(i, b) \/ DCancelRL(i, b)
         \/ \E h \in Range(Cfg.handlers) : DRegister(i, h.id)
-        \/ \E b \in B : DIdleBegin(i, b, FALSE) \/ \E ty \in Range(Types) : DDispatch(i, b, ty)
+        \/ \E b \in B : DIdleBegin(i, b, FALSE) \/ (WithRedispatch /\ \E e \in 1..MaxEv : DRedispatch(i, e, b)) \/ \E ty \in Range(Types) : DDispatch(i, b, ty)
         \/ \E k \in 1..MaxEv : DAwaitBegin(i, k)
 
 Next == NextCore /\ UNCHANGED Cfg /\ hlog' = IF KeepLog /\ o'.nl # o.nl THEN Append(hlog, o'.lastln) ELSE hlog
